@@ -260,7 +260,9 @@ func (fv *FuncVC) pos(p token.Pos) string {
 	}
 	pp := fv.W.Prog.SSA.Fset.Position(p)
 	f := pp.Filename
-	if i := strings.Index(f, "/repo/"); i >= 0 {
+	if strings.HasPrefix(f, RepoDir+"/") {
+		f = f[len(RepoDir)+1:]
+	} else if i := strings.Index(f, "/repo/"); i >= 0 {
 		f = f[i+6:]
 	}
 	return fmt.Sprintf("%s:%d", f, pp.Line)
